@@ -163,6 +163,15 @@ theorem C06_watermark_le_height (a : ANode) (script : List DAAns)
     (headersIter a script).1.n.hdrWm ≤ (headersIter a script).1.n.store.height :=
   headersIter_wm_le a script hok hle
 
+/-- the same for the data watermark (the non-empty blocks of the pending range carry their height in the data
+metadata, as the producer writes it) -/
+theorem C06_data_watermark_le_height (a : ANode) (script : List DAAns)
+    (hok : ∀ h, a.n.dataWm < h → h ≤ a.n.store.height → ∃ b, a.n.store.getBlock h = some b ∧
+      (b.data.txs ≠ [] → dataHeight b = h))
+    (hle : a.n.dataWm ≤ a.n.store.height) :
+    (dataIter a script).1.n.dataWm ≤ (dataIter a script).1.n.store.height :=
+  dataIter_wm_le a script hok hle
+
 /-- **memory = metadata**: if the persisted watermarks equal the ones in memory before a submission loop (of either
 kind), they do afterwards -/
 theorem C06_persisted (d : Bool) (fuel : Nat) (a : ANode) (items : List Item) (script : List DAAns)
